@@ -23,7 +23,12 @@ class BaseParser(ABC):
         pass
 
     def find_file_locations(self) -> List[Path]:
-        return list(Path(self.parent_directory).rglob(self.file_type.value))
+        # Sorted (closest to the project root first) so that the result does not
+        # depend on the order in which the file system lists directory entries
+        return sorted(
+            Path(self.parent_directory).rglob(self.file_type.value),
+            key=lambda path: (len(path.parts), path),
+        )
 
     def parse(self) -> list[PackageStore]:
         """
